@@ -2,6 +2,7 @@
 status.  Every output channel x open/write/close fault at every k."""
 import json
 import os
+import sys
 
 from ..core import build, runner
 from ..core.rng import run_rng, fnv1a
@@ -64,13 +65,29 @@ def _mk_jobs(ctx):
     return jobs, libs
 
 
+def _decoys(job, root):
+    """The channel directories also exist under the source directory: a tool that resolved its (relative) output paths
+    after changing into -srcdir would write there -- and must then not report success for the requested paths."""
+    if job["tool"] == "interrogate":
+        for rel in job["outputs"].values():
+            os.makedirs(os.path.join(root, "src", os.path.dirname(rel)), exist_ok=True)
+
+
 def _golden_for(job, idx):
     root = runner.fresh_dir("golden-%d" % idx)
     common.materialise(job, root)
+    _decoys(job, root)
     r = common.run_job(job, root, "rel", env=ENV)
     if r.status != 0 or r.crashed:
-        raise SystemExit("outfault: fault-free run of job %s failed: %s\n%s" % (job["name"], r.outcome(), r.stderr.decode()[-2000:]))
+        sys.stderr.write("outfault: fault-free run of job %s fails (%s); the job is only self-checked\n" % (job["name"], r.outcome()))
+        common.cleanup(root)
+        return None
     out = common.collect_outputs(job, root)
+    if any(v is None for v in out.values()):
+        sys.stderr.write("outfault: fault-free run of job %s exits 0 without producing %s; the job is only self-checked\n" %
+                         (job["name"], sorted(ch for ch, v in out.items() if v is None)))
+        common.cleanup(root)
+        return None
     events = {}
     # every channel has its own directory: whatever file the tool writes in there (the target itself, or a
     # temporary it later renames into place) belongs to that channel
@@ -156,6 +173,9 @@ def generate(ctx):
     plans = []
     rng = run_rng(ctx.seed, NAME, 0)
     for ji in range(len(JOBS)):
+        if GOLDEN[ji] is None:
+            plans.append({"job": ji, "build": "rel", "faults": [], "selfcheck": True})
+            continue
         pts = _fault_points(ji)
         for kind in KINDS:
             plans.append({"job": ji, "build": kind, "faults": []})  # fault-free control
@@ -212,6 +232,20 @@ def execute(plan):
     job, g = JOBS[ji], GOLDEN[ji]
     root = runner.fresh_dir("of-%d-%016x" % (os.getpid(), fnv1a(json.dumps(plan, sort_keys=True))))
     common.materialise(job, root)
+    _decoys(job, root)
+    if plan.get("selfcheck"):
+        r = common.run_job(job, root, "rel", env=ENV)
+        out = common.collect_outputs(job, root)
+        common.cleanup(root)
+        violations = []
+        missing = sorted(ch for ch, v in out.items() if not v)
+        if r.status == 0 and missing:
+            violations.append({"property": "C19", "class": "exit0-output-not-written",
+                               "key": {"tool": job["tool"], "channel": missing[0], "fault": "none-output-missing"},
+                               "msg": "%s %s: exit status 0 in a fault-free run although nothing was written at the requested -%s path" % (job["tool"], job["name"], missing[0])})
+        return {"violations": violations, "harness_faults": [], "abstract": "%s|selfcheck|%s" % (job["tool"], r.outcome()),
+                "hash": runner.sha(json.dumps([plan, r.outcome(), missing], sort_keys=True)), "nontrivial": False, "fired": {}, "planned": [],
+                "status": r.outcome(), "partial": [], "signal": bool(r.signal)}
     rules = []
     lost_real = set()   # channels whose target cannot hold the data by construction
     for f in plan["faults"]:
@@ -279,6 +313,8 @@ def execute(plan):
 def shrink(plan, fails):
     # plans hold at most two faults: try each alone, then simpler arguments
     best = plan
+    if not plan["faults"]:
+        return plan
     if len(plan["faults"]) > 1:
         for f in plan["faults"]:
             cand = dict(plan, faults=[f])
@@ -326,7 +362,8 @@ def coverage(ctx, plans, results):
         "exhaustive": True,
         "exhaustive_note": "the single-fault space of the jobs listed is enumerated completely on the shipping-flag build; pairs and the sanitized build are seeded samples",
         "jobs": [{"name": j["name"], "tool": j["tool"], "writes_per_channel": {ch: GOLDEN[i]["events"][ch]["write"] for ch in sorted(j["outputs"])},
-                  "bytes_per_channel": {ch: len(GOLDEN[i]["out"][ch]) for ch in sorted(j["outputs"])}} for i, j in enumerate(JOBS)],
+                  "bytes_per_channel": {ch: len(GOLDEN[i]["out"][ch]) for ch in sorted(j["outputs"])}} if GOLDEN[i] is not None else
+                 {"name": j["name"], "tool": j["tool"], "self_checked_only": True} for i, j in enumerate(JOBS)],
         "faults_planned": planned, "faults_fired": fired, "process_outcomes": outcomes,
         "max_write_k_reached": maxk, "runs_leaving_partial_file": partial, "runs_ending_in_signal": signals,
         "simulated_time_covered": "none: no clock is read on any path this property depends on",
